@@ -16,7 +16,7 @@ structure Valid (p : Ptr) : Prop where
   size_le : p.size ≤ maxInt64
   exts_ok : ∀ e ∈ p.exts, ValidExt e
   asc : StrictAsc p.exts
-  short : (enc p).length ≤ cut
+  short : (enc p).length < cut
 
 /-! ### byte-class facts -/
 theorem hex_toNat {c : UInt8} (h : isLowerHex c = true) : 48 ≤ c.toNat ∧ c.toNat ≤ 102 := by
